@@ -306,6 +306,11 @@ func (y *sys) callSchedule(id int, k string, e, o, last int) {
 	if err != nil {
 		rt.Fatalf("c17: NewSchedule(%q): %v", schedString(k, e), err)
 	}
+	if y.co != nil {
+		y.co.sched[id] = true
+		// scheduled behind the coordinator's back: the next coordinator move for this id starts from no record
+		delete(y.co.tasks, id)
+	}
 	y.t.Event("Call", rt.M{"t": "S", "id": id, "k": k, "e": e, "o": o, "last": last})
 	var rerr error
 	y.within("Schedule", func() {
